@@ -40,8 +40,11 @@ type sysSpec struct {
 var archNames = []string{"A", "B", "C"}
 
 func isLink(kind string) bool { return kind == "chan" || kind == "tcp" }
+// base strips the "-raw" suffix: a "-raw" kind is the same resource bound without Logging/Faulty wrappers.
+func base(kind string) string { return strings.TrimSuffix(kind, "-raw") }
+
 func isPrivate(kind string) bool {
-	switch kind {
+	switch base(kind) {
 	case "local", "ilocal", "reflocal", "incmap", "hashmap":
 		return true
 	}
@@ -58,7 +61,7 @@ func intp(i int) *int { return &i }
 // menu lists the operations archetype a may apply to resource r.
 func menu(r resSpec, a int) []gate2.Op {
 	n := r.Name
-	switch r.Kind {
+	switch base(r.Kind) {
 	case "local", "reflocal", "shared":
 		return []gate2.Op{{K: "r", R: n}, {K: "w", R: n}}
 	case "ilocal", "incmap":
@@ -146,7 +149,7 @@ func (m model) render() string {
 func initModel(sys sysSpec) model {
 	m := model{}
 	for _, r := range sys.Res {
-		switch r.Kind {
+		switch base(r.Kind) {
 		case "local", "reflocal", "shared":
 			m[r.Name] = &mres{cell: r.Name + "_0"}
 		case "ilocal", "incmap", "hashmap", "sharedfn", "sharedmap":
@@ -216,9 +219,14 @@ func buildSystem(sys sysSpec, env *wenv, withFaulty bool) *built {
 		b.vars[a] = append(b.vars[a], gate2.Var{Name: name, Ref: true})
 		b.cfg[a] = append(b.cfg[a], distsys.EnsureArchetypeRefParam(name, res))
 	}
+	wrapped := bind
 	for _, r := range sys.Res {
 		n := r.Name
-		switch r.Kind {
+		bind = wrapped
+		if strings.HasSuffix(r.Kind, "-raw") {
+			bind = bindRaw
+		}
+		switch base(r.Kind) {
 		case "sharedfn":
 			mgr := resources.NewLocalSharedManager(tla.MakeTuple(tla.MakeString(n+"_1_0"), tla.MakeString(n+"_2_0")), resources.WithLocalSharedResourceTimeout(20*time.Second))
 			for _, a := range r.Users {
